@@ -43,6 +43,13 @@ def check_eddsa_gate(chk, prog, env):
                 raise AnalysisBroken('GnuTLS EdDSA pk enumerators not found')
         else:
             ids = [1087, 1088]     # NID_ED25519 / NID_ED448 (OpenSSL obj_mac.h, macro constants)
+        # key types that must NOT reach the primitive: every other value of the provider's key-type enumeration
+        if provider == 'gnutls':
+            others = sorted(set(v for n_, v in u.enums.items() if n_.startswith('GNUTLS_PK_') and isinstance(v, int) and v not in ids))
+        else:
+            others = [6, 116, 408, 912, 1034, 1035]     # RSA, DSA, EC, RSA-PSS, X25519, X448
+        if not others:
+            raise AnalysisBroken('no non-EdDSA key type known for provider %s' % provider)
         for kind in ('sign', 'verify'):
             fn = '%s_%s_sha_pem' % (provider, kind)
             prog.func(unit, fn)
@@ -64,8 +71,8 @@ def check_eddsa_gate(chk, prog, env):
                 for k in set(list(st.cons.keys()) + list(st.dom.keys())):
                     if isinstance(k, tuple) and len(k) > 1 and k[0] == 'pure' and k[1] in KEYTYPE_FN[provider]:
                         seen_any = True
-                        vals = it.feasible_vals(st, k, tuple(ids))
-                        if all(v in ids for v in vals):
+                        vals = it.feasible_vals(st, k, tuple(ids) + tuple(others))
+                        if vals and all(v in ids for v in vals):
                             ok = True
                 if not ok:
                     found['bad'].append(node_loc(node))
@@ -88,8 +95,10 @@ def check_eddsa_gate(chk, prog, env):
             st.mem[(jwt, 'key')] = Ref(ko)
             pk = Term(('mem', ko, 'provider_data'), ptr=True)
             st.ptrfact[pk.k] = 'nonnull'
+            st.mem[(ko, 'provider_data')] = pk
             pem = Term(('mem', ko, 'pem'), ptr=True)
             st.ptrfact[pem.k] = 'nonnull'
+            st.mem[(ko, 'pem')] = pem
             head = Term(('head',), ptr=True)
             if kind == 'sign':
                 args = [Ref(jwt), Ref(('obj', 'out')), Ref(('obj', 'len')), head, Term(('head_len',))]
@@ -97,6 +106,8 @@ def check_eddsa_gate(chk, prog, env):
                 sig = ('obj', 'sigbuf')
                 args = [Ref(jwt), head, Term(('head_len',)), Ref(sig), Term(('sig_len',))]
             it.run(fn, args, st)
+            if not found['n']:
+                raise AnalysisBroken('C09.eddsa-key-type: %s never reaches its %s primitive with alg EdDSA (harness or anchor broken)' % (fn, kind))
             total += found['n']
             for (f, l) in found['bad']:
                 bad += 1
